@@ -186,6 +186,8 @@ def cases(tier):
         if SIG.input_fuzz(cmd) != "fz":
             yield ("repair", cmd)
     yield ("long",)
+    for cmd in INT_PRESETS:
+        yield ("k2i", cmd)
     for cmd in SIG.DATA_COMMANDS:
         if SIG.input_fuzz(cmd) != "fz":
             yield ("netcdf", cmd)
@@ -258,9 +260,11 @@ def _check_model(cmds, table, work, all_perms, viols, outcomes, counters, tagbas
     base_sig = None
     runs = 0
     for oi, order in enumerate(_orders(len(prog), all_perms)):
-        for meta in ((False, True) if oi == 0 else (False,)):
+        for meta in ((False, True, "args-reversed") if oi == 0 else (False,)):
             pr = [prog[i] for i in order]
-            if meta:
+            if meta == "args-reversed":
+                pr = [(n, c, list(reversed(a))) for n, c, a in pr]  # the order in which named arguments are written means nothing
+            elif meta:
                 pr = [(n, c, a + [("Metadata", ("tuple", [("bare", "DisplayName", ("q", "x " + n)), ("bare", "Note", ("q", "m"))]))]) for n, c, a in pr]
             text = G.render(G.items_of(pr))[0]
             res = _run_text(text, work)
@@ -297,8 +301,8 @@ def _check_model(cmds, table, work, all_perms, viols, outcomes, counters, tagbas
                         viols.append(V("C02:%s:expected-%s" % ([c for n, c, _, _ in cmds if n == bad][0], env[bad][1]), "model [%s] ran although %s must fail with %s" % (desc, bad, env[bad][1]), **tag))
             else:
                 if sig != base_sig:
-                    what = "metadata" if meta else "file order %r" % (order,)
-                    viols.append(V("C02:order-dependence:%s" % ("metadata" if meta else "file-order"), "model [%s]: %s changes the outcome: %s vs %s" % (
+                    what = "writing the arguments in reversed order" if meta == "args-reversed" else "metadata" if meta else "file order %r" % (order,)
+                    viols.append(V("C02:order-dependence:%s" % ("argument-order" if meta == "args-reversed" else "metadata" if meta else "file-order"), "model [%s]: %s changes the outcome: %s vs %s" % (
                         desc, what, _brief(sig), _brief(base_sig)), **tag))
             if res[0] == "ok":
                 # whatever else the model does, the columns that were read must still be what the file says after the run
@@ -481,6 +485,61 @@ def _run_repair(case):
     return {"evals": max(evals, 1), "nontrivial": evals, "judged": counters["judged"], "unspecified": 0, "unstable": 0, "viols": viols, "outcomes": outcomes, "sample": sample}
 
 
+# value-list parameters written with INTEGER literals only (1, 0, -1 instead of 1.0, 0.0, -1.0): how a number is spelled is not its meaning
+INT_PRESETS = {
+    "NormalizeCat": {"RawValues": [0, 2, 5], "NormalValues": [1, 0, 1], "DefaultNormalValue": 0},
+    "CvtToFuzzyCat": {"RawValues": [0, 2, 5], "FuzzyValues": [1, 0, -1], "DefaultFuzzyValue": 0},
+    "NormalizeCurve": {"RawValues": [-1, 2, 5], "NormalValues": [0, 1, 0]},
+    "CvtToFuzzyCurve": {"RawValues": [-1, 2, 5], "FuzzyValues": [-1, 1, 0]},
+    "NormalizeMeanToMid": {"IgnoreZeros": False, "NormalValues": [0, 0, 1, 1, 1]},
+    "CvtToFuzzyMeanToMid": {"IgnoreZeros": False, "FuzzyValues": [-1, -1, 0, 1, 1]},
+    "NormalizeCurveZScore": {"ZScoreValues": [-1, 0, 1], "NormalValues": [0, 1, 0]},
+    "CvtToFuzzyCurveZScore": {"ZScoreValues": [-1, 0, 1], "FuzzyValues": [-1, 0, 1]},
+    "CvtToBinary": {"Threshold": 1, "Direction": "LowToHigh"},
+    "Normalize": {"StartVal": 0, "EndVal": 1},
+    "CvtToFuzzy": {"TrueThreshold": 5, "FalseThreshold": 0},
+}
+
+
+def _run_k2i(case):
+    """first command with all-integer parameter literals on an integer column and on a float column, second command = EVERY command that
+    can consume it (alone, as first and as second input)"""
+    _, cmd1 = case
+    viols, outcomes = [], {}
+    counters = {"judged": 0, "unspecified": 0, "unstable": 0}
+    evals = 0
+    sample = None
+    work = snapshot.scratch_dir("c02_")
+    base = [("F", False), ("I", False), ("G", False)]
+    try:
+        for ti in (0, 2):
+            table = TABLES[ti]
+            _write_table(work, table)
+            p1 = INT_PRESETS[cmd1]
+            fz1 = SIG.COMMANDS[cmd1]["out"][1]
+            for src in ("I", "F"):
+                avail = base + [("R1", fz1)]
+                for cmd2 in SIG.DATA_COMMANDS:
+                    binds = [b for b in _bindings(cmd2, avail, must="R1") if len(b) == 1 or b in (("R1", "R1"),) or (len(b) == 2 and "R1" in b and (b[0] in ("I", "F") or b[1] in ("I", "F")))]
+                    if SIG.input_fuzz(cmd2) == "fz":
+                        binds = [b for b in _bindings(cmd2, avail + [("Z", True)], must="R1") if len(b) <= 2]
+                    for p2 in D.presets_small(cmd2, 2)[:1]:
+                        for ins2 in binds:
+                            cmds = [("R1", cmd1, p1, (src,))]
+                            if "Z" in ins2:
+                                cmds.append(("Z", "CvtToFuzzy", {"TrueThreshold": 5.5, "FalseThreshold": -2.5}, ("G",)))
+                            cmds.append(("R2", cmd2, p2, ins2))
+                            evals += _check_model(cmds, table, work, False, viols, outcomes, counters, {"table": ti, "family": "integer-literals"})
+                            sample = {"model": "R1=%s(%s) %r ; R2=%s%r" % (cmd1, src, p1, cmd2, ins2), "table": ti}
+                if len(viols) > 40:
+                    del viols[40:]
+    finally:
+        import shutil
+        shutil.rmtree(work, ignore_errors=True)
+    return {"evals": max(evals, 1), "nontrivial": evals, "judged": counters["judged"], "unspecified": counters["unspecified"], "unstable": counters["unstable"],
+            "viols": viols, "outcomes": outcomes, "sample": sample}
+
+
 def _run_long(case):
     """a LONG table (named sizes: 30 and 1000 rows) with ONE column of decimals: every non-fuzzy-input command on the single column"""
     viols, outcomes = [], {}
@@ -531,6 +590,8 @@ def run(case):
     case = tuple(case)
     if case[0] == "long":
         return _run_long(case)
+    if case[0] == "k2i":
+        return _run_k2i(case)
     if case[0] == "netcdf":
         return _run_netcdf(case)
     if case[0] == "repair":
